@@ -920,6 +920,14 @@ class RecordLayer(object):
 
             try:
                 if isinstance(header, RecordHeader2):
+                    # SSLv2 framing is acceptable only for the first message
+                    # or for a real SSLv2 connection
+                    if self.version not in ((2, 0), (0, 2)) and \
+                            self._readState and \
+                            (self._readState.encContext or
+                             self._readState.macContext):
+                        raise TLSUnexpectedMessage(
+                            "SSLv2 record on a protected connection")
                     data = self._decryptSSL2(data, header.padding)
                     if self.handshake_finished:
                         header.type = ContentType.application_data
